@@ -38,6 +38,8 @@ pub struct WorldSpec {
   pub cardinals: usize,
   /// run the ord server without --index-runes (regtest worlds index runes by default)
   pub no_rune_index: bool,
+  /// run the ord server with --no-index-inscriptions (the prepared inscriptions are then invisible)
+  pub no_inscription_index: bool,
 }
 
 pub struct World {
@@ -245,13 +247,14 @@ impl World {
     std::fs::create_dir_all(dir.path().join("server")).unwrap();
     std::fs::create_dir_all(dir.path().join("cli")).unwrap();
     let server = hook::spawn_server(&format!(
-      "ord {} --bitcoin-rpc-url {} --cookie-file {} --bitcoin-data-dir {} --datadir {} {} server --no-sync --http-port 0 --address 127.0.0.1",
+      "ord {} --bitcoin-rpc-url {} --cookie-file {} --bitcoin-data-dir {} --datadir {} {} {} server --no-sync --http-port 0 --address 127.0.0.1",
       if spec.regtest { "--regtest" } else { "" },
       core.url(),
       core.cookie_file().display(),
       dir.path().join("server").display(),
       dir.path().join("server").display(),
       if (k > 0 || spec.regtest) && !spec.no_rune_index { "--index-runes" } else { "" },
+      if spec.no_inscription_index { "--no-index-inscriptions --index-addresses" } else { "" },
     ));
     server.update().expect("index update");
 
@@ -277,8 +280,10 @@ impl World {
   /// the prepared outputs must be what the real index says they are
   fn validate(&self) {
     for (j, o) in self.spec.outputs.iter().enumerate() {
-      let got = self.server.inscriptions(self.outpoints[j]).unwrap_or_default();
-      assert_eq!(got, self.inscriptions[j], "world: inscriptions of output {j}");
+      if !self.spec.no_inscription_index {
+        let got = self.server.inscriptions(self.outpoints[j]).unwrap_or_default();
+        assert_eq!(got, self.inscriptions[j], "world: inscriptions of output {j}");
+      }
       if self.spec.regtest && !self.spec.no_rune_index {
         let mut want: Vec<(RuneId, u128)> = Vec::new();
         for (r, a) in &o.runes {
